@@ -457,8 +457,85 @@ func init() {
 		ruleSnapshot(r)
 		ruleDeletedCheck(r)
 		ruleScanFromFirstFile(r)
+		ruleTailRecovery(r)
 		rulePredictOpenOnly(r)
 	},
 		"Decides structural necessary conditions of 'clean Close + reopen preserves contents', not the behaviour: Store.Close reaches the Close of index, primary, file cache and freelist on every path behind the open guard, each component flushes before closing its file; the bucket snapshot is written (temp + rename) only after a successful flush and close, is only trusted when its size matches, and is removed once opened; writer, rescan and GC agree on the bucket position convention; every sequential scanner honours the deleted bit; recovery starts from the header's FirstFile; the primary resumes predicting at the end of the last file. Not covered: that rescan order reproduces the live table for every history, file contents.",
 		"dominance on the SSA CFG without pruning infeasible paths")
+}
+
+// R-TAIL-RECOVERY: the rescan of the index log cuts an incomplete trailing
+// record off at the record's start, whichever way the short read is reported.
+func ruleTailRecovery(r *Report) {
+	const rule = "tail-recovery"
+	fn := r.need(rule, "I", "scanIndexFile")
+	if fn == nil {
+		return
+	}
+	truncs := callSites(fn, "os.Truncate", "(*os.File).Truncate")
+	if len(truncs) == 0 {
+		r.Bad(rule, "scanIndexFile/truncates", fn.Pos(), "the index rescan never truncates an incomplete trailing record: appends after a torn tail would be misparsed by the next scan")
+		return
+	}
+	success, _ := classifyReturns(fn)
+	succSet := map[ssa.Instruction]bool{}
+	for _, s := range success {
+		if isNilConst(retVal(s, 0)) {
+			succSet[s] = true
+		}
+	}
+	var start ssa.Value
+	n := 0
+	for _, c := range callSites(fn, "(*os.File).ReadAt") {
+		rc := asCall(c)
+		if rc == nil {
+			continue
+		}
+		isSizeWord := false
+		if l, ok := (linEnv{}).sliceLen(rc.Call.Args[1]); ok {
+			if k, isC := l.isConst(); isC && k == 4 {
+				isSizeWord = true
+			}
+		}
+		nVals := map[ssa.Value]bool{}
+		for _, v := range extractOf(rc, 0) {
+			nVals[v] = true
+		}
+		var allowed []Edge
+		what := "record body"
+		if isSizeWord {
+			what = "size prefix"
+			if start == nil {
+				start = rc.Call.Args[2]
+			}
+			// a clean end of file: nothing at all was read
+			allowed = cmpConstEdges(fn, func(v ssa.Value) bool { return nVals[v] }, 0, true)
+		}
+		n++
+		bad := false
+		for _, fe := range failureEdges(rc) {
+			fe := fe
+			reach, path := Search{Fn: fn, FromEdge: &fe, Target: anyOf(succSet), Avoid: anyOf(instrSet(truncs)), AvoidEdges: mkEdgeSet(allowed)}.Run()
+			if reach {
+				bad = true
+				r.BadPath(rule, "scanIndexFile/short-"+what+"-is-cut-off", rc.Pos(), "after a failed/short read of the "+what+" the scan can finish successfully without truncating the file and without having established that nothing was read (n == 0): os.File.ReadAt reports a partial read at the end of the file as io.EOF, so a torn "+what+" stays in the log, later appends follow it, and the next rescan misparses everything after it (flushed keys lost)", path)
+			}
+		}
+		if !bad {
+			r.Ok(rule, "scanIndexFile/short-"+what+"-is-cut-off", rc.Pos(), "a short read of the "+what+" either is a clean end of file (n == 0) or leads to truncation or an error")
+		}
+	}
+	if start == nil {
+		r.Undecided(rule, "scanIndexFile: size-word ReadAt not found")
+		return
+	}
+	for _, t := range truncs {
+		a := t.Common().Args
+		off := a[len(a)-1]
+		d := linEnv{}.lin(off).add(linEnv{}.lin(start), -1)
+		k, isC := d.isConst()
+		r.Check(isC && k == 0, rule, "scanIndexFile/truncate-at-record-start", t.Pos(), "the file is cut at the start of the incomplete record",
+			fmt.Sprintf("the incomplete record is cut at record start %+d (%s): a dangling fragment (e.g. the size prefix) stays in the log and the next rescan misparses what follows", k, d))
+	}
+	r.Min(rule, 4)
 }
